@@ -205,6 +205,41 @@ struct Rewriter<'a> {
     consumed_closures: Vec<usize>,
     notes: Vec<String>,
     skip_ranges: Vec<(usize, usize)>,
+    /// lexical lockset: scopes of (guard variable, lock key)
+    guard_scopes: Vec<Vec<(String, String)>>,
+}
+
+/// if `e` is `<recv>.lock()` / `.try_lock()` possibly followed by `.expect(..)` / `.unwrap()`, the lock's receiver key
+fn lock_chain_key(e: &Expr) -> Option<String> {
+    match e {
+        Expr::MethodCall(m) => {
+            let n = m.method.to_string();
+            if (n == "lock" || n == "try_lock") && m.args.is_empty() {
+                Some(recv_key(&m.receiver))
+            } else if n == "expect" || n == "unwrap" {
+                lock_chain_key(&m.receiver)
+            } else {
+                None
+            }
+        }
+        Expr::Paren(p) => lock_chain_key(&p.expr),
+        _ => None,
+    }
+}
+
+fn lock_bit(key: &str) -> u64 {
+    match key {
+        "core" => 1,
+        "schedule" => 2,
+        "threads" => 4,
+        "max_threads" => 8,
+        "busy_rc" | "also_busy" | "is_busy" | "busy" => 16,
+        "result" | "0" => 32,
+        "ready_mutex" | "is_finished" => 64,
+        "stream_core" => 128,
+        "state" => 256,
+        _ => 512,
+    }
 }
 
 fn recv_key(e: &Expr) -> String {
@@ -225,6 +260,18 @@ fn recv_key(e: &Expr) -> String {
 impl<'a> Rewriter<'a> {
     fn edit(&mut self, start: usize, end: usize, text: String, prio: i32) {
         self.edits.push(Edit { start, end, text, prio });
+    }
+    fn lockset(&self) -> u64 {
+        let mut m = 0u64;
+        for sc in &self.guard_scopes {
+            for (_, k) in sc {
+                m |= lock_bit(k);
+            }
+        }
+        m
+    }
+    fn expand(&self, txt: &str) -> String {
+        txt.replace("$LOCKS", &format!("{}u64", self.lockset()))
     }
     fn in_skip(&self, off: usize) -> bool {
         self.skip_ranges.iter().any(|(s, e)| off >= *s && off < *e)
@@ -321,9 +368,8 @@ impl<'a> Rewriter<'a> {
         false
     }
 
-    fn process_block_stmts(&mut self, block: &syn::Block) {
-        let n = block.stmts.len();
-        for (i, st) in block.stmts.iter().enumerate() {
+    fn process_one_stmt(&mut self, block: &syn::Block, i: usize, n: usize, st: &Stmt) {
+        {
             let (ss, se) = self.src.range(st.span());
             // BEFORE / AFTER anchors by normalized statement prefix
             let ntext = norm_ws(&self.src.text[ss..se]);
@@ -331,7 +377,8 @@ impl<'a> Rewriter<'a> {
                 let (ref pre, ord, ref txt) = self.spec.before_stmt[k];
                 if ntext.starts_with(pre.as_str()) {
                     if self.before_counts[k] == ord {
-                        self.edits.push(Edit { start: ss, end: ss, text: format!("{}\n", txt), prio: -5 });
+                        let t = self.expand(txt);
+                        self.edits.push(Edit { start: ss, end: ss, text: format!("{}\n", t), prio: -5 });
                         self.used_before[k] = true;
                     }
                     self.before_counts[k] += 1;
@@ -341,7 +388,8 @@ impl<'a> Rewriter<'a> {
                 let (ref pre, ord, ref txt) = self.spec.after_stmt[k];
                 if ntext.starts_with(pre.as_str()) {
                     if self.after_counts[k] == ord {
-                        self.edits.push(Edit { start: se, end: se, text: format!("\n{}", txt), prio: 5 });
+                        let t = self.expand(txt);
+                        self.edits.push(Edit { start: se, end: se, text: format!("\n{}", t), prio: 5 });
                         self.used_after[k] = true;
                     }
                     self.after_counts[k] += 1;
@@ -388,8 +436,26 @@ fn collect_pat_idents(p: &syn::Pat, out: &mut Vec<String>) {
 
 impl<'a, 'ast> Visit<'ast> for Rewriter<'a> {
     fn visit_block(&mut self, b: &'ast syn::Block) {
-        self.process_block_stmts(b);
-        visit::visit_block(self, b);
+        self.guard_scopes.push(vec![]);
+        // visit statement by statement so that anchors see the lexical lockset at their position
+        let n = b.stmts.len();
+        for (i, st) in b.stmts.iter().enumerate() {
+            self.process_one_stmt(b, i, n, st);
+            self.visit_stmt(st);
+            // a `let` that binds a lock guard keeps the lock to the end of this block
+            if let Stmt::Local(l) = st {
+                if let Some(init) = &l.init {
+                    if let Some(k) = lock_chain_key(&init.expr) {
+                        let mut names = vec![];
+                        collect_pat_idents(&l.pat, &mut names);
+                        if let Some(nm) = names.first() {
+                            self.guard_scopes.last_mut().unwrap().push((nm.clone(), k));
+                        }
+                    }
+                }
+            }
+        }
+        self.guard_scopes.pop();
     }
 
     fn visit_stmt(&mut self, st: &'ast Stmt) {
@@ -465,6 +531,7 @@ impl<'a, 'ast> Visit<'ast> for Rewriter<'a> {
                         )),
                     }
                 } else if let Some(arg) = self.spec.rules.call.get(&name) {
+                    let arg = self.expand(arg);
                     let (_, pe) = self.src.range(m.paren_token.span.close());
                     let sep = if m.args.is_empty() { "" } else { ", " };
                     self.edit(pe - 1, pe - 1, format!("{}{}", sep, arg), 0);
@@ -474,15 +541,57 @@ impl<'a, 'ast> Visit<'ast> for Rewriter<'a> {
                 if let Expr::Path(p) = &*c.func {
                     let full = p.path.segments.iter().map(|s| s.ident.to_string()).collect::<Vec<_>>().join("::");
                     let last = p.path.segments.last().map(|s| s.ident.to_string()).unwrap_or_default();
+                    if full == "mem::drop" && c.args.len() == 1 {
+                        if let Expr::Path(ap) = &c.args[0] {
+                            if let Some(id) = ap.path.get_ident() {
+                                let id = id.to_string();
+                                for sc in self.guard_scopes.iter_mut() {
+                                    sc.retain(|(n, _)| *n != id);
+                                }
+                            }
+                        }
+                    }
                     if let Some(np) = self.spec.rules.path.get(&full) {
                         let (fs, fe) = self.src.range(p.path.span());
                         self.edit(fs, fe, np.clone(), 0);
                     }
                     let hit = self.spec.rules.call.get(&full).or_else(|| if p.path.segments.len() > 1 || true { self.spec.rules.call.get(&last) } else { None });
                     if let Some(arg) = hit {
+                        let arg = self.expand(arg);
                         let (_, pe) = self.src.range(c.paren_token.span.close());
                         let sep = if c.args.is_empty() { "" } else { ", " };
                         self.edit(pe - 1, pe - 1, format!("{}{}", sep, arg), 0);
+                    }
+                }
+            }
+            Expr::If(i) => {
+                if let Expr::Let(l) = &*i.cond {
+                    if let Some(k) = lock_chain_key(&l.expr) {
+                        let mut names = vec![];
+                        collect_pat_idents(&l.pat, &mut names);
+                        self.visit_expr(&i.cond);
+                        self.guard_scopes.push(vec![(names.first().cloned().unwrap_or_default(), k)]);
+                        self.visit_block(&i.then_branch);
+                        self.guard_scopes.pop();
+                        if let Some((_, e)) = &i.else_branch {
+                            self.visit_expr(e);
+                        }
+                        return;
+                    }
+                }
+            }
+            Expr::Assign(a) => {
+                if let (Expr::Path(lp), Some(k)) = (&*a.left, lock_chain_key(&a.right)) {
+                    if let Some(id) = lp.path.get_ident() {
+                        let id = id.to_string();
+                        for sc in self.guard_scopes.iter_mut() {
+                            sc.retain(|(n, _)| *n != id);
+                        }
+                        visit::visit_expr(self, e);
+                        if let Some(sc) = self.guard_scopes.last_mut() {
+                            sc.push((id, k));
+                        }
+                        return;
                     }
                 }
             }
@@ -549,10 +658,45 @@ impl<'a, 'ast> Visit<'ast> for Rewriter<'a> {
             Expr::ForLoop(l) => {
                 let n = self.loop_no;
                 self.loop_no += 1;
-                if let Some(inv) = self.spec.loops.get(&n) {
+                let inv = self.spec.loops.get(&n).cloned().unwrap_or_default();
+                if self.spec.loops.contains_key(&n) {
+                    self.used_loops.push(n);
+                }
+                // R15: `for &(ref a, ref b) in X.iter() {` -> index loop (Verus has no ref patterns)
+                let mut fields: Vec<String> = vec![];
+                let mut ok = false;
+                if let syn::Pat::Reference(r) = &*l.pat {
+                    if let syn::Pat::Tuple(t) = &*r.pat {
+                        ok = true;
+                        for el in &t.elems {
+                            match el {
+                                syn::Pat::Ident(pi) if pi.by_ref.is_some() => fields.push(pi.ident.to_string()),
+                                _ => ok = false,
+                            }
+                        }
+                    }
+                }
+                let mut recv_txt = String::new();
+                if let Expr::MethodCall(m) = &*l.expr {
+                    if m.method == "iter" && m.args.is_empty() {
+                        recv_txt = self.text(m.receiver.span()).to_string();
+                    } else { ok = false; }
+                } else { ok = false; }
+                if ok {
+                    let (fs, _) = self.src.range(l.for_token.span());
+                    let (bs, _) = self.src.range(l.body.span());
+                    let mut t = format!("let mut idx__: usize = 0;\nwhile idx__ < {}.len()\n{}\n{{ let elem__ = &{}[idx__];", recv_txt, inv, recv_txt);
+                    for (k, f) in fields.iter().enumerate() {
+                        t.push_str(&format!(" let {} = &elem__.{};", f, k));
+                    }
+                    t.push_str(" idx__ = idx__ + 1;");
+                    self.edit(fs, bs + 1, t, 0);
+                    self.notes.push(format!("R15 for-loop over {}.iter() rewritten as an index loop at {}:{}", recv_txt, self.src.rel, self.src.line_of(fs)));
+                    self.visit_block(&l.body);
+                    return;
+                } else if !inv.is_empty() {
                     let (bs, _) = self.src.range(l.body.span());
                     self.edit(bs, bs, format!("\n{}\n", inv), 0);
-                    self.used_loops.push(n);
                 }
             }
             _ => {}
@@ -954,6 +1098,7 @@ fn main() {
                 consumed_closures: vec![],
                 notes: vec![],
                 skip_ranges: vec![],
+                guard_scopes: vec![],
             };
             let (rs, re);
             if let Some(b) = region_block {
